@@ -103,7 +103,7 @@ Proof.
     destruct (denote p rho) as [b|] eqn:Eb; [|discriminate].
     destruct ((k <? 0)%Z || (RANGE_LIMIT <? k)%Z); [discriminate|]. inversion Hd; subst.
     specialize (IHp rho b Hwf Eb). clear -IHp. induction (Z.to_nat k); cbn [repeat_pulse]; [constructor|apply Forall_app; split; assumption].
-  - (* For *) cbn [wf] in Hwf. apply andb_prop in Hwf as (_ & Hwf). apply andb_prop in Hwf as (_ & Hwf).
+  - (* For *) cbn [wf] in Hwf. apply andb_prop in Hwf as (_ & Hwf).
     rewrite denote_For in Hd. destruct (as_int (eval rho a)); [|discriminate]. destruct (as_int (eval rho o)); [|discriminate].
     destruct (as_int (eval rho s)); [|discriminate]. destruct (py_range z z0 z1) as [ks|]; [|discriminate].
     cbn [channels]. revert pcs Hd. induction ks as [|k ks IH]; intros pcs Hd.
